@@ -2,24 +2,26 @@
 (* TLC checks the cost model (M) against the true size change (S) for every decision in bounds.
    With sep = 1 (module level, or a body printed on one line) the model is exact; with an indented
    block (sep = 1 + depth) it under-estimates the inserted assignment by `depth` characters - the
-   known finding D15, reproduced here when KnownIndentation = FALSE. *)
+   known finding D15, reproduced here when KnownIndentation = FALSE (MC_Cost_indent.cfg); a hoisted literal that touched a
+   word costs one blank per site the model does not count - the known finding D30, reproduced the same way. *)
 EXTENDS CostS
 
-CONSTANT KnownIndentation      \* TRUE: decisions whose inserted assignment lands in an indented block are excluded (D15)
+CONSTANT KnownIndentation      \* TRUE: decisions whose inserted assignment lands in an indented block (D15) or whose literal touched a word (D30) are excluded
 
-VARIABLES kind, L, C, plain, imps, args, sep
-vars == <<kind, L, C, plain, imps, args, sep>>
+VARIABLES kind, L, C, plain, imps, args, sep, touch
+vars == <<kind, L, C, plain, imps, args, sep, touch>>
 Init == /\ kind \in {"name", "builtin", "hoisted"}
         /\ L \in 1..12 /\ C \in 1..3 /\ plain \in 0..7 /\ imps \in 0..1 /\ args \in 0..1 /\ sep \in 1..3
         /\ (kind # "name" => imps = 0 /\ args = 0 /\ plain >= 1)
         /\ Refs(kind, plain, imps, args) >= 1
+        /\ touch \in 0..2 /\ touch <= plain /\ (kind # "hoisted" => touch = 0)
 Next == UNCHANGED vars
 Spec == Init /\ [][Next]_vars
 
 Inserted == kind # "name" \/ args > 0
-CostSound == (ShouldRenameM(kind, L, C, plain, imps, args) /\ (KnownIndentation => (sep = 1 \/ ~Inserted)))
-                => TrueDelta(kind, L, C, plain, imps, args, sep) <= 0
+CostSound == (ShouldRenameM(kind, L, C, plain, imps, args) /\ (KnownIndentation => ((sep = 1 \/ ~Inserted) /\ touch = 0)))
+                => TrueDelta(kind, L, C, plain, imps, args, sep, touch) <= 0
 \* the model is exact where no indentation is involved
-Exact == (sep = 1 \/ ~Inserted) =>
-            TrueDelta(kind, L, C, plain, imps, args, sep) = RenameCost(kind, L, C, plain, imps, args) - CurrentCost(kind, L, plain, imps, args)
+Exact == ((sep = 1 \/ ~Inserted) /\ touch = 0) =>
+            TrueDelta(kind, L, C, plain, imps, args, sep, touch) = RenameCost(kind, L, C, plain, imps, args) - CurrentCost(kind, L, plain, imps, args)
 =============================================================================
